@@ -510,6 +510,10 @@ func TestCheck(t *testing.T) {
 		if staged {
 			pname = "staged-forks"
 			proto = func(c *config.Blockchain) { vchain.StagedForks(c); c.MaxTraceableBlocks = 12 }
+		} else if hi%5 == 3 {
+			stage := []string{"Echidna", "none", "Cockatrice", "Aspidochelone"}[(hi/5)%4]
+			pname = "forks-up-to-" + stage
+			proto = func(c *config.Blockchain) { vchain.PartialForks(c, stage); c.MaxTraceableBlocks = 12 }
 		} else {
 			proto = func(c *config.Blockchain) { vchain.AllForks(c); c.MaxTraceableBlocks = 12 }
 		}
